@@ -38,6 +38,7 @@ var smallScopeAtoms = []string{
 	`human(id:1,f:{name:"a",sub:{}}){name}`, `human(id:1,f:{name:"a",tags:["x",1]}){name}`, `human(id:1,f:{name:"a",tags:[]}){name}`,
 	"find(c:RED){name}", "find(c:BLUE){name}", `find(c:"RED"){name}`, `find(ids:[1,"a"]){name}`, "find(ids:[1.5]){name}", "find(ids:1){name}",
 	"find(e:{a:1}){name}", `find(e:{a:1,b:"x"}){name}`, "find(e:{}){name}", "find(e:{a:null}){name}", "find(e:{a:$v}){name}", "find(f:$f){name}",
+	"find(ids:[1.5],f:{nam:\"a\"},c:BLUE){name}", "x:find(ids:[1.5],f:{nam:\"a\"},c:BLUE){name}", "x:page(zz:1,ttl:\"s\",aa:2){name}", "dog @cache(zz:1,ttl:\"s\",aa:2){name}",
 	// directives
 	"dog @skip(if:true){name}", "dog @skip{name}", "dog @include(if:true) @skip{name}", "dog @skip(if:true) @include{name}",
 	"dog @skip(if:true) @skip(if:false){name}", "dog @cache(ttl:1){name}", "dog @cache{name}", "dog @cache(ttl:1) @cache{name}",
